@@ -25,34 +25,36 @@ pub struct Case {
 
 pub struct C19;
 
-fn mag() -> BoxedStrategy<u128> {
-    let special: Vec<u128> = vec![
-        0,
-        1,
-        2,
-        3,
-        (1u128 << 64) - 1,
-        1u128 << 64,
-        (1u128 << 64) + 1,
-        (1u128 << 127) - 1,
-        1u128 << 127,
-        (1u128 << 127) + 1,
-        u128::MAX - 1,
-        u128::MAX,
-        u128::MAX / 2,
-        u128::MAX / 3,
-        1_000_000,
-        1_000_000_000,
-    ];
-    prop_oneof![
-        4 => proptest::sample::select(special),
-        3 => any::<u128>(),
-        2 => (0u128..1000),
-        2 => any::<u64>().prop_map(|x| x as u128),
-        1 => (0u32..128).prop_map(|s| 1u128 << s),
-        1 => (1u32..128, 0u128..3).prop_map(|(s, d)| (1u128 << s).wrapping_sub(d)),
-    ]
-    .boxed()
+const SPECIAL: [u128; 16] = [
+    0,
+    1,
+    2,
+    3,
+    (1u128 << 64) - 1,
+    1u128 << 64,
+    (1u128 << 64) + 1,
+    (1u128 << 127) - 1,
+    1u128 << 127,
+    (1u128 << 127) + 1,
+    u128::MAX - 1,
+    u128::MAX,
+    u128::MAX / 2,
+    u128::MAX / 3,
+    1_000_000,
+    1_000_000_000,
+];
+
+/// magnitude from (class, raw): special values, uniform, small, 64-bit, powers of two and their neighbours.
+/// A flat mapping instead of `prop_oneof` (see ops::op_strategy on unions and the pass-through RNG).
+fn mag_of(class: u8, raw: u128) -> u128 {
+    match class % 13 {
+        0..=3 => SPECIAL[(raw % 16) as usize],
+        4..=6 => raw,
+        7 | 8 => raw % 1000,
+        9 | 10 => raw as u64 as u128,
+        11 => 1u128 << (raw % 128),
+        _ => (1u128 << (1 + raw % 127)).wrapping_sub((raw >> 8) % 3),
+    }
 }
 
 fn mk(ctor: u8, neg: bool, v: u128) -> Integer {
@@ -138,17 +140,20 @@ impl Property for C19 {
         "C19"
     }
     fn strategy(&self, _tier: Tier) -> BoxedStrategy<Case> {
-        let pair = prop_oneof![
-            5 => (mag(), mag()),
-            2 => mag().prop_map(|m| (m, m)),
-            1 => mag().prop_map(|m| (m, m.wrapping_add(1))),
-            1 => (mag(), Just(0u128)),
-            1 => (Just(0u128), mag()),
-            1 => mag().prop_map(|m| (m, u128::MAX - m)),
-            1 => mag().prop_map(|m| (m, (u128::MAX - m).wrapping_add(1))),
-        ];
-        (0u8..3, any::<bool>(), any::<bool>(), pair)
-            .prop_map(|(ctor, an, bn, (av, bv))| Case { ctor, an, av, bn, bv })
+        (0u8..3, any::<bool>(), any::<bool>(), 0u8..13, any::<u128>(), 0u8..13, any::<u128>(), 0u8..12)
+            .prop_map(|(ctor, an, bn, ca, ra, cb, rb, mode)| {
+                let m = mag_of(ca, ra);
+                let (av, bv) = match mode {
+                    0..=4 => (m, mag_of(cb, rb)),
+                    5 | 6 => (m, m),
+                    7 => (m, m.wrapping_add(1)),
+                    8 => (m, 0),
+                    9 => (0, m),
+                    10 => (m, u128::MAX - m),
+                    _ => (m, (u128::MAX - m).wrapping_add(1)),
+                };
+                Case { ctor, an, av, bn, bv }
+            })
             .boxed()
     }
     fn cases(&self, tier: Tier) -> u32 {
